@@ -556,6 +556,31 @@ Section IO.
       + split; [exact A|right; left; exact Bq].
       + split; [exact A|left; exact Bq].
   Qed.
+
+  (* a limited open returns the messages that end within the limit and never writes an index (it may only delete a
+     stale one); a limit that covers the file is an ordinary open *)
+  Theorem open_max_safe p1i d' ig n : plausible_index p1i d' ->
+    exists o, open_log_max p1 load p1i d' ig n = Opened o /\
+              (length d' <= n -> open_log_max p1 load p1i d' ig n = open_log p1 load p1i d' ig) /\
+              (n < length d' -> o_msgs o = take_within n (file_frames d') /\ (o_p1i o = p1i \/ o_p1i o = None)).
+  Proof.
+    intros Hp. unfold open_log_max. destruct (Nat.leb (length d') n) eqn:El.
+    - apply Nat.leb_le in El. destruct (open_is_fresh p1i d' ig Hp) as (o & Ho & _).
+      exists o. split; [exact Ho|]. split; [reflexivity|lia].
+    - apply Nat.leb_gt in El.
+      destruct (if ig then None else p1i) as [idx|] eqn:Ei.
+      + assert (p1i = Some idx) by (destruct ig; [discriminate|exact Ei]). subst p1i.
+        destruct Hp as (d & s & k & Hok & Hs & Hrel & ->).
+        destruct (load (firstn k s) d') as [i|del|] eqn:Eo.
+        * apply (load_sound d s k d' Hok Hs Hrel) in Eo. subst i.
+          eexists. split; [reflexivity|]. split; [lia|]. intros _. cbn [o_msgs o_p1i].
+          rewrite read_fresh_is_scan. split; [reflexivity|left; reflexivity].
+        * eexists. split; [reflexivity|]. split; [lia|]. intros _. cbn [o_msgs o_p1i].
+          rewrite read_fresh_is_scan. split; [reflexivity|]. destruct del; [right|left]; reflexivity.
+        * exfalso. exact (load_total _ _ Eo).
+      + eexists. split; [reflexivity|]. split; [lia|]. intros _. cbn [o_msgs o_p1i].
+        rewrite read_fresh_is_scan. split; [reflexivity|left; reflexivity].
+  Qed.
 End IO.
 
 (* the loader before the repairs *)
